@@ -11,3 +11,5 @@ func newCacheCap(n int) *oidc.Cache { return oidc.NewCache() }
 func cacheSnapshot(c *oidc.Cache) (order, items, elems []string) { return nil, nil, nil }
 
 func stopMetadataCleanup(t *oidc.TraefikOidc) bool { return false }
+
+func housekeeping(t *oidc.TraefikOidc) bool { return false }
